@@ -8,6 +8,7 @@ import (
 	"fmt"
 	"go/ast"
 	"go/constant"
+	"go/token"
 	"go/types"
 	"strings"
 
@@ -205,4 +206,141 @@ func constInt(info *types.Info, e ast.Expr) (int64, bool) {
 	}
 	v, ok := constant.Int64Val(tv.Value)
 	return v, ok
+}
+
+// unexaminedErrors: an error result that is bound to a variable must be looked at (compared,
+// returned, passed on) on every path that follows the call inside its loop-free region. A path on
+// which the variable is simply not consulted treats a failed call as a successful one.
+// allowed maps "<funcKey>|unexamined-error|<callee>" to a reason.
+func unexaminedErrors(c *Ctx, r *Repo, rule string, p *packages.Package, fd *ast.FuncDecl, allowed map[string]string) {
+	info := p.TypesInfo
+	fk := funcKey(p, fd)
+	errT := types.Universe.Lookup("error").Type()
+	type bound struct {
+		idx, total int
+		obj        types.Object
+	}
+	bind := map[token.Pos]bound{}
+	note := func(lhs []ast.Expr, rhs ast.Expr) {
+		call, ok := ast.Unparen(rhs).(*ast.CallExpr)
+		if !ok {
+			return
+		}
+		total := 1
+		last := info.TypeOf(call)
+		if tup, ok := last.(*types.Tuple); ok {
+			total = tup.Len()
+			if total == 0 {
+				return
+			}
+			last = tup.At(total - 1).Type()
+		}
+		if last == nil || !types.Identical(last, errT) || len(lhs) != total {
+			return
+		}
+		id, ok := lhs[total-1].(*ast.Ident)
+		if !ok || id.Name == "_" {
+			return
+		}
+		bind[call.End()] = bound{total - 1, total, objOf(info, id)}
+	}
+	ast.Inspect(fd.Body, func(n ast.Node) bool {
+		switch x := n.(type) {
+		case *ast.AssignStmt:
+			if len(x.Rhs) == 1 {
+				note(x.Lhs, x.Rhs[0])
+			}
+		case *ast.ValueSpec:
+			if len(x.Values) == 1 {
+				var l []ast.Expr
+				for _, n := range x.Names {
+					l = append(l, n)
+				}
+				note(l, x.Values[0])
+			}
+		}
+		return true
+	})
+	if len(bind) == 0 {
+		return
+	}
+	named := map[types.Object]bool{}
+	if fd.Type.Results != nil {
+		for _, f := range fd.Type.Results.List {
+			for _, n := range f.Names {
+				named[info.Defs[n]] = true
+			}
+		}
+	}
+	reported := map[string]bool{}
+	regions := regionsOf(fd)
+	// is pos inside a loop or function literal nested in the region (analysed as a region of its own)?
+	nested := func(rg region, pos token.Pos) bool {
+		for _, other := range regions {
+			if other.pos == rg.pos || other.kind == "func" {
+				continue
+			}
+			if other.pos.Pos() > rg.pos.Pos() && other.pos.End() <= rg.pos.End() || rg.kind == "func" {
+				if pos >= other.pos.Pos() && pos < other.pos.End() {
+					return true
+				}
+			}
+		}
+		return false
+	}
+	for _, rg := range regions {
+		d := newDT(info)
+		d.paths = nil
+		d.stmts(seedEnv(d, fd), rg.list, func(q *dtPath) { d.finish(q, "end") })
+		if d.overflow {
+			c.Fail(rule, fk+"|path-explosion", r.Pos(rg.pos.Pos()), "too many paths to enumerate in "+fk+" (undecided)")
+			continue
+		}
+		for _, q := range d.paths {
+			for _, dc := range q.Calls {
+				b, ok := bind[dc.End]
+				if !ok || dc.Step >= len(q.Steps) || nested(rg, dc.Pos) {
+					continue
+				}
+				e := strings.TrimPrefix(q.Steps[dc.Step], "call ")
+				if b.total > 1 {
+					e += fmt.Sprintf("#%d", b.idx)
+				}
+				examined := named[b.obj] && q.Exit == "return" && len(q.Ret) == 0
+				for _, a := range q.Atoms {
+					if a.Step > dc.Step && strings.Contains(a.Expr, e) {
+						examined = true
+					}
+				}
+				for _, st := range q.Steps[dc.Step+1:] {
+					if strings.Contains(st, e) {
+						examined = true
+					}
+				}
+				for _, rt := range q.Ret {
+					if strings.Contains(rt, e) {
+						examined = true
+					}
+				}
+				key := fk + "|unexamined-error|" + dc.Name
+				switch {
+				case examined:
+					if !reported[key+"ok"] {
+						reported[key+"ok"] = true
+						c.OK(rule, key, r.Pos(dc.Pos), "examined on every path")
+					}
+				case allowed[key] != "":
+					if !reported[key] {
+						reported[key] = true
+						c.OK(rule, key, r.Pos(dc.Pos), "reviewed: "+allowed[key])
+					}
+				default:
+					if !reported[key] {
+						reported[key] = true
+						c.Fail(rule, key, r.Pos(dc.Pos), fmt.Sprintf("in %s the error returned by %s is bound to a variable but not consulted on the path %s: a failed call is treated like a successful one there", fk, dc.Name, q.String()))
+					}
+				}
+			}
+		}
+	}
 }
